@@ -17,6 +17,9 @@ col = {
   # list: element description; map: key / value descriptions
   "elem": {"ptype","type_length","rep","ct","lt"}            (list)
   "key": {...}, "value": {...}                               (map)
+  # optional, nested only: "group_name" (repeated middle group; default "list" / "key_value"),
+  # "elem_name" (list leaf; default "element"), "kv_ct" (converted type of the map's middle group;
+  # default MAP_KEY_VALUE, None = not annotated)
 }
 chunk (flat / list) = {
   "rows": [row values],   # flat: value|None ; list: None | [value|None,...] ; map: None | [(k, v|None),...]
@@ -79,14 +82,16 @@ def schema_elements(columns):
             top = {"name": c["name"], "num_children": 1, "repetition_type": REP[c["rep"]],
                    "converted_type": F.CT["LIST"]}
             out.append(top)
-            out.append({"name": "list", "num_children": 1, "repetition_type": 2})
-            out.append(_se("element", c["elem"]))
+            out.append({"name": c.get("group_name", "list"), "num_children": 1, "repetition_type": 2})
+            out.append(_se(c.get("elem_name", "element"), c["elem"]))
         elif c["nested"] == "map":
             top = {"name": c["name"], "num_children": 1, "repetition_type": REP[c["rep"]],
                    "converted_type": F.CT["MAP"]}
             out.append(top)
-            out.append({"name": "key_value", "num_children": 2, "repetition_type": 2,
-                        "converted_type": F.CT["MAP_KEY_VALUE"]})
+            kv = {"name": c.get("group_name", "key_value"), "num_children": 2, "repetition_type": 2}
+            if c.get("kv_ct", F.CT["MAP_KEY_VALUE"]) is not None:
+                kv["converted_type"] = c.get("kv_ct", F.CT["MAP_KEY_VALUE"])
+            out.append(kv)
             out.append(_se("key", c["key"]))
             out.append(_se("value", c["value"]))
     return out
@@ -128,11 +133,13 @@ def leaf_streams(col, rows):
         return md, reps, defs, vals
     if col["nested"] == "list":
         md, reps, defs, vals = shred(col["elem"], lambda x: x)
-        return [((col["name"], "list", "element"), col["elem"], md, 1, reps, defs, vals)]
+        return [((col["name"], col.get("group_name", "list"), col.get("elem_name", "element")),
+                 col["elem"], md, 1, reps, defs, vals)]
+    kvn = col.get("group_name", "key_value")
     md, reps, defs, vals = shred(col["key"], lambda kv: kv[0])
-    out = [((col["name"], "key_value", "key"), col["key"], md, 1, reps, defs, vals)]
+    out = [((col["name"], kvn, "key"), col["key"], md, 1, reps, defs, vals)]
     md, reps, defs, vals = shred(col["value"], lambda kv: kv[1])
-    out.append(((col["name"], "key_value", "value"), col["value"], md, 1, reps, defs, vals))
+    out.append(((col["name"], kvn, "value"), col["value"], md, 1, reps, defs, vals))
     return out
 
 
